@@ -766,12 +766,99 @@ def odd_callables_probe(res):
                 res.count("oracle:odd-callable-ok")
 
 
+# ---- parameters annotated with builtin / standard-library types, arguments of every class incl. SUBCLASS instances (a datetime for
+# a date parameter, a bool for an int one): the argument the callable receives is unmarshal(annotation, argument), nothing less
+STD_ANNOTS = ["int", "float", "str", "bytes", "bool", "datetime.date", "datetime.datetime", "datetime.time", "datetime.timedelta",
+              "decimal.Decimal", "fractions.Fraction", "uuid.UUID", "pathlib.PurePosixPath", "list[int]", "dict[str, int]", "tuple[int, str]",
+              "typing.Optional[datetime.date]", "typing.Union[int, str]", "set[int]", "typing.List[datetime.date]", "Level", "typing.Literal[1, 'a']"]
+STD_VALUES = ["DT", "datetime.date(2021, 2, 3)", "'2020-01-02'", "5", "True", "'5'", "1.5", "decimal.Decimal('1.50')", "Level.LOW", "S('ab')", "b'7'",
+              "None", "[1, '2']", "(1, 'x')", "{'a': '1'}", "collections.OrderedDict(a=True)", "collections.deque([True, 2])",
+              "uuid.UUID(int=7)", "pathlib.PurePosixPath('a/b')", "datetime.time(1, 2, tzinfo=datetime.timezone.utc)",
+              "datetime.timedelta(seconds=90)", "fractions.Fraction(1, 2)", "[DT, '2020-01-02']", "MyList([True])", "bytearray(b'8')"]
+STD_SRC = """
+import collections, datetime, decimal, enum, fractions, pathlib, typing, uuid
+class Level(enum.IntEnum):
+    LOW = 1
+class S(str):
+    pass
+class MyList(list):
+    pass
+DT = datetime.datetime(2020, 1, 2, 3, 4, 5, tzinfo=datetime.timezone.utc)
+def make(A):
+    def f(a: A, /, b: A, *rest: A, k: A, **kw: A):
+        return (a, b, rest, k, kw)
+    class C:
+        def m(self, a: A, b: A = None, *rest: A, **kw: A):
+            return (a, b, rest, kw)
+    return f, C().m
+"""
+
+
+def _std_child(ann):
+    import sys
+    import types
+    import warnings
+    warnings.simplefilter("ignore")
+    import typelib
+    from typelib import binding
+    mod = types.ModuleType("vm_c10_std")
+    sys.modules["vm_c10_std"] = mod
+    ns = mod.__dict__
+    _exec(STD_SRC, ns)          # (compiled without this file's `from __future__ import annotations`: the annotation is the local A)
+    A = eval(ann, ns)
+    f, m = ns["make"](A)
+
+    def show(x):
+        if isinstance(x, dict):
+            return ["dict", [[show(k), show(v)] for k, v in x.items()]]
+        if isinstance(x, (set, frozenset)):
+            return [type(x).__name__, sorted(repr(show(e)) for e in x)]
+        if isinstance(x, (list, tuple)):
+            return [type(x).__name__] + [show(e) for e in x]
+        return f"{type(x).__name__}:{x!r}"
+    out = []
+    for src in STD_VALUES:
+        v = eval(src, ns)
+        try:
+            c = typelib.unmarshal(A, v)
+            c2 = typelib.unmarshal(A, eval(src, ns))
+            exp_f, exp_m = ("ok", show((c, c, (c2,), c, {"x": c2}))), ("ok", show((c, c2, (c,), {"x": c2})))
+        except Exception as e:  # noqa: BLE001
+            exp_f = exp_m = ("err", enc.err_class(e))
+        for label, fn, call, exp in (("f", f, lambda g: g(v, v, eval(src, ns), k=v, x=eval(src, ns)), exp_f),
+                                     ("method", m, lambda g: g(v, eval(src, ns), v, x=eval(src, ns)), exp_m)):
+            for how, mk in (("bind", binding.bind), ("wrap", binding.wrap)):
+                try:
+                    got = ("ok", show(call(mk(fn))))
+                except Exception as e:  # noqa: BLE001
+                    got = ("err", enc.err_class(e))
+                out.append([src, f"{how}({label})", got == exp, repr(got)[:200], repr(exp)[:200]])
+    return out
+
+
+def std_annotations_probe(res):
+    from .. import core, iso
+    core.import_typelib()
+    outs = iso.map_isolated(_std_child, STD_ANNOTS, timeout=120)
+    for ann, o in zip(STD_ANNOTS, outs):
+        if not isinstance(o, list):
+            raise RuntimeError(f"harness: std-annotation probe failed: {ann}: {o}")
+        for src, how, ok, got, exp in o:
+            res.case({"annotation": ann, "argument": src, "how": how}, True)
+            if ok:
+                res.count("oracle:std-annotated-parameter-ok")
+            else:
+                res.failures.append({"what": f"{how} with every parameter annotated {ann}, argument {src} at every position: the callable received {got}; "
+                                             f"unmarshal({ann}, argument) per parameter gives {exp}", "input": {"std_annotation": ann, "argument": src}})
+
+
 def explore(ctx):
     res = Result()
     res.rule = RULE
     jobs = build_jobs(ctx)
     evaluate(jobs, res)
     odd_callables_probe(res)
+    std_annotations_probe(res)
     rows = {k.split(":")[1] for k in res.stats if k.startswith("row:")}
     res.extra["presence_rows_covered"] = len(rows)
     return res
@@ -783,6 +870,13 @@ def witness(fid):
 
 def replay(failure):
     inp = failure["input"]
+    if "std_annotation" in inp:
+        from .. import core, iso
+        core.import_typelib()
+        out = iso.map_isolated(_std_child, [inp["std_annotation"]], timeout=120)[0]
+        bad = [r for r in out if not r[2]] if isinstance(out, list) else out
+        print(json.dumps(bad, indent=1)[:3000])
+        return bool(bad)
     if "odd_callable" in inp:
         from .. import core, iso
         core.import_typelib()
